@@ -279,6 +279,20 @@ func H_C17_digest_foreign() {
 		vReach("sign failed")
 		return
 	}
+	// the signer is used again before the first signature is checked
+	if vChoose("second", 2) == 1 {
+		content2 := vBlob("content2")
+		var sig2 []byte
+		var err2 error
+		if vChoose("entry2", 2) == 0 {
+			sig2, err2 = signer.Sign(vRand(), content2)
+		} else {
+			sig2, err2 = ds.SignDigest(vRand(), vHash(refHashOfAlg(int64(alg)), content2))
+		}
+		if err2 == nil {
+			vAssert("foreign: a second signature from the same signer verifies", verifier.Verify(content2, sig2) == nil)
+		}
+	}
 	vAssert("foreign: verifies through Verify", verifier.Verify(content, sig) == nil)
 	if dv, ok := verifier.(DigestVerifier); ok {
 		vAssert("foreign: verifies through VerifyDigest", dv.VerifyDigest(digest, sig) == nil)
